@@ -150,6 +150,8 @@ type cluster struct {
 	failFold bool
 	killFold bool // the next coalesce: the sync agent's sfold child dies from a signal
 	agents   map[int]http.Handler // node -> router of jiva's REAL sync agent (used for coalesce requests)
+	failFiemap    bool   // the next block-map rebuild of the task's replica: one extent query (FIEMAP) of the base file fails
+	restoreFiemap func()
 	failXfer bool // the next snapshot-file transfer of the sync agent dies half way (the sender exits non-zero)
 	pendingCleaner int
 	cleanerTick map[int]chan time.Time
